@@ -7,6 +7,13 @@
 //	    the constant initial value of a `var` declared in the body of Func (zero when
 //	    no initialiser) -> Definition c_<prefix><name>_init : Z.
 //
+//	{"kind":"locked","file":"proto/message_id.go","func":"MessageIDBuf.Consume","name":"consume_atomic",
+//	 "names":["b.mux.Lock()","defer b.mux.Unlock()"]}
+//	    structural guard: the body of Func must START with exactly these statements and contain
+//	    no other Lock/RLock/Unlock/RUnlock call, i.e. the whole function is one critical section
+//	    (the atomic-step granularity the models assume) -> Definition guard_<name> : bool := true;
+//	    anything else makes the translator refuse.
+//
 // plus, for kind "func": assignment / inc-dec targets may be renamed expressions
 // (e.g. "g.nano" -> "gnano"), `"also":[...]` appends locals to every returned tuple and a
 // bare `return` returns the named results.
@@ -40,6 +47,33 @@ func extMtItem(sb *strings.Builder, repo string, it Item, pc *pkgConsts) {
 		die("parse %s: %v", it.File, err)
 	}
 	switch it.Kind {
+	case "locked":
+		fd := findFunc(f, it.Func)
+		if fd == nil || fd.Body == nil {
+			die("function %s not found in %s", it.Func, it.File)
+		}
+		if len(fd.Body.List) < len(it.Names) {
+			die("locked: %s in %s is shorter than the expected locking prefix", it.Func, it.File)
+		}
+		for i, want := range it.Names {
+			if got := show(fd.Body.List[i]); got != want {
+				die("locked: statement %d of %s in %s is `%s`, expected `%s`: the function is no longer one critical section (shape not understood)", i, it.Func, it.File, got, want)
+			}
+		}
+		for _, st := range fd.Body.List[len(it.Names):] {
+			ast.Inspect(st, func(n ast.Node) bool {
+				if ce, ok := n.(*ast.CallExpr); ok {
+					if se, ok := ce.Fun.(*ast.SelectorExpr); ok {
+						switch se.Sel.Name {
+						case "Lock", "Unlock", "RLock", "RUnlock":
+							die("locked: %s in %s calls %s after its locking prefix: not one critical section (shape not understood)", it.Func, it.File, show(ce))
+						}
+					}
+				}
+				return true
+			})
+		}
+		fmt.Fprintf(sb, "(* from %s : %s is one critical section (%s) *)\nDefinition guard_%s%s : bool := true.\n", it.File, it.Func, strings.Join(it.Names, "; "), it.Prefix, it.Name)
 	case "callarg":
 		var vals []constant.Value
 		ast.Inspect(f, func(n ast.Node) bool {
